@@ -143,6 +143,21 @@ def check_builder(ctx, facts, body, rule="R1", TBA=TBA, KEYFRAME=KEYFRAME):
             continue
         callterm, X = st
         ctx.ob(rule, inst + "/sorted", True, "keyframes = sort(%s)" % show(X), body["span"])
+        # nothing that depends on the insertion order may happen before the sort: its input is the configuration's own
+        # keyframe vector, unmodified (no element rewritten, nothing derived from "the first / the last added")
+        src = X
+        while src[0] == "deref":
+            src = src[1]
+        pristine = src[0] == "field" and src[1] in (("param", 1), ("deref", ("param", 1))) and \
+            not [e for e in p.events if e["kind"] == "store" and pse.contains(("x", e.get("cell"), e.get("path")), ("param", 1))
+                 and e["seq"] < min([c["seq"] for c in p.events if c["kind"] == "call" and c["callee"] in SORTS] or [10 ** 9])]
+        pre_mut = [e["callee"] for e in p.events if e["kind"] == "call" and e["callee"] not in SORTS
+                   and e["seq"] < min([c["seq"] for c in p.events if c["kind"] == "call" and c["callee"] in SORTS] or [10 ** 9])
+                   and any(a[0] == "ref" and a[3] for a in e["args"])]
+        ctx.ob(rule, inst + "/sort-input-pristine", pristine and not pre_mut,
+               "the sort must be applied to the configuration's keyframes as they were given - nothing may be rewritten or "
+               "derived from the insertion order before it; input %s, mutating calls before the sort: %s"
+               % (show(X)[:160], pre_mut), body["span"], trace_of(p), what="order-dependent-step-before-sort")
         comparator_ok(ctx, facts, "R2", callterm, body["span"], kf_roles)
         for name, v in agg[4]:
             if name == roles["keyframes"]:
@@ -237,6 +252,23 @@ def check_generated_build(ctx, facts, body, rule="R3"):
     return n
 
 
+def rule_append_only(ctx, F, rule="R4"):
+    """TimelineConfiguration::keyframe only appends"""
+    kb = F.one(crate="mina_core", name="keyframe", impl_trait="mina_core::timeline::TimelineConfigurationBuilder")
+    eng = pse.Engine(F)
+    paths = eng.run(kb)
+    ctx.count_paths(paths, kb)
+    for p in paths:
+        if p.outcome != "return":
+            continue
+        muts = [e for e in p.events if e["kind"] == "call" and any(a[0] == "ref" and a[3] for a in e["args"])]
+        ok = len(muts) == 1 and muts[0]["callee"].startswith("alloc::vec::Vec::<T, A>::push") or \
+            (len(muts) == 1 and muts[0]["callee"].startswith("alloc::vec::Vec::<T>::push"))
+        ctx.ob(rule, kb["path"] + "/append-only", ok,
+               "TimelineConfiguration::keyframe must only append (one Vec::push); mutating calls: %s"
+               % [m["callee"] for m in muts], kb["span"], trace_of(p), what="keyframe-not-append-only")
+
+
 def check(ctx):
     F = ctx.facts
     bs = [b for b in builders_of(F, TBA) if ctx.facts.body_unit[b["id"]][0] == "mina_core"]
@@ -257,20 +289,7 @@ def check(ctx):
             check_generated_build(ctx, g["_facts"], g)
     except ImportError:
         ctx.notes.append("witness family not built yet: R3 checked on the repository's own derive uses only")
-    # R4: TimelineConfiguration::keyframe only appends
-    kb = F.one(crate="mina_core", name="keyframe", impl_trait="mina_core::timeline::TimelineConfigurationBuilder")
-    eng = pse.Engine(F)
-    paths = eng.run(kb)
-    ctx.count_paths(paths, kb)
-    for p in paths:
-        if p.outcome != "return":
-            continue
-        muts = [e for e in p.events if e["kind"] == "call" and any(a[0] == "ref" and a[3] for a in e["args"])]
-        ok = len(muts) == 1 and muts[0]["callee"].startswith("alloc::vec::Vec::<T, A>::push") or \
-            (len(muts) == 1 and muts[0]["callee"].startswith("alloc::vec::Vec::<T>::push"))
-        ctx.ob("R4", kb["path"] + "/append-only", ok,
-               "TimelineConfiguration::keyframe must only append (one Vec::push); mutating calls: %s"
-               % [m["callee"] for m in muts], kb["span"], trace_of(p), what="keyframe-not-append-only")
+    rule_append_only(ctx, F, "R4")
     ctx.notes.append("not decided: ties at equal positions (excluded by the property)")
     ctx.assumptions.append("slice::sort_by with a total comparator yields a permutation sorted by that comparator")
 
